@@ -79,6 +79,39 @@ func (e *Engine) doCall(fr *frame, x *ssa.Call, st *State, k func(st *State, res
 	if ok {
 		e.oblige(st, fr, "nil", "call:"+e.callText(x), e.C.Not(e.C.IsNil(fv.P)), x.Pos())
 	}
+	// calls through a function-typed parameter of the root function: assumed frame (callee … preserves)
+	if par, isPar := cm.Value.(*ssa.Parameter); isPar && fr.inl == "" && e.cur != nil && e.cur.spec != nil {
+		// callee <param> requires …: proved at the call site over the actual arguments a0, a1, …
+		for i, rq := range e.cur.spec.CalleeReq[par.Name()] {
+			env := &specEnv{e: e, heap: &st.heap, old: &e.cur.entry.heap, vars: map[string]SVal{}, bound: map[string]*Term{}, rc: e.cur, ext: st.ext}
+			if e.cur.fn.Pkg != nil {
+				env.pkg = e.cur.fn.Pkg.Pkg
+			}
+			for k, v := range e.cur.params {
+				env.vars[k] = v
+			}
+			for j, a := range cm.Args {
+				env.vars[fmt.Sprintf("a%d", j)] = SVal{V: args[j], T: a.Type()}
+			}
+			goal, facts := e.clauseGoal(env, rq)
+			st.facts = append(st.facts, facts...)
+			e.oblige(st, fr, "callpre", par.Name()+":"+clauseName(rq, i), goal, x.Pos())
+		}
+		if st.calls == nil {
+			st.calls = e.C.Const(64, 0)
+		}
+		st.calls = e.C.Add(st.calls, e.C.Const(64, 1))
+		if items := e.cur.spec.Preserves[par.Name()]; len(items) > 0 {
+			old := st.heap
+			e.noteAbstract("assumed frame of calls through parameter " + par.Name())
+			e.keepingCall = true
+			e.abstractCall(fr, x, "dynamic call", st, func(st2 *State, res Value) {
+				e.restoreKept(st2, old)
+				k(st2, res)
+			})
+			return
+		}
+	}
 	e.abstractCall(fr, x, "dynamic call", st, k)
 }
 
@@ -197,10 +230,16 @@ func (e *Engine) abstractCall(fr *frame, x *ssa.Call, what string, st *State, k 
 			hasPtr = true
 		}
 	}
+	keeping := e.keepingCall
+	e.keepingCall = false
 	if x.Common().IsInvoke() || hasPtr {
 		c.havocAll(&st.heap)
 		if fr.dry != nil {
-			fr.dry.noteAll()
+			if keeping {
+				fr.dry.noteAllKeeping()
+			} else {
+				fr.dry.noteAll()
+			}
 		}
 	}
 	var res Value
@@ -422,6 +461,7 @@ func (e *Engine) doAppend(fr *frame, x *ssa.Call, args []Value, st *State, k fun
 	dst := Ptr{r, c.Const(64, 0)}
 	c.zeroRegion(&st2.heap, r, et)
 	newCap := c.FreshVar("appcap", BV(64))
+	st2.ext = append(st2.ext, extent{r, c.Const(64, 0), c.Mul(newCap, es)})
 	st2.assume(c.Sle(newLen, newCap))
 	st2.assume(c.Slt(newCap, c.Const(64, 1<<40)))
 	e.allocOblig(fr, st2, txt, c.Mul(newLen, es), x.Pos())
@@ -478,7 +518,7 @@ type modRange struct {
 // Contract calls
 
 func (e *Engine) specEnvFor(fn *ssa.Function, spec *FuncSpec, args []Value, results []Value, heap, old *Heap, assume bool) *specEnv {
-	env := &specEnv{e: e, heap: heap, old: old, assume: assume, vars: map[string]SVal{}, bound: map[string]*Term{}, rc: e.cur}
+	env := &specEnv{e: e, heap: heap, old: old, assume: assume, vars: map[string]SVal{}, bound: map[string]*Term{}, rc: e.cur, ext: e.curExt}
 	if fn.Pkg != nil {
 		env.pkg = fn.Pkg.Pkg
 	} else if p, ok := e.P.All[spec.PkgPath]; ok {
@@ -591,6 +631,7 @@ func (e *Engine) contractCall1(fr *frame, x *ssa.Call, fn *ssa.Function, spec *F
 	c := e.C
 	short := ShortKey(spec.Key)
 	pre := st.heap
+	e.curExt = st.ext
 	if e.cur != nil && e.cur.used != nil {
 		e.cur.used[spec.Key] = true
 	}
@@ -634,6 +675,7 @@ func (e *Engine) contractCall1(fr *frame, x *ssa.Call, fn *ssa.Function, spec *F
 			st.assume(a)
 		}
 		results = append(results, v)
+		e.addExtents(st, v, rs.At(i).Type())
 	}
 	post := e.specEnvFor(fn, spec, args, results, &st.heap, &pre, true)
 	post.freshAlloc = func() *Term {
@@ -728,6 +770,7 @@ func (e *Engine) havocItem(fr *frame, st *State, env *specEnv, m *Clause) {
 	for _, a := range as {
 		st.assume(a)
 	}
+	e.addExtents(st, nv, t)
 	if cond != nil {
 		nv = c.IteVal(cond, nv, c.Load(&st.heap, p, 0, t))
 	}
@@ -779,6 +822,31 @@ func (e *Engine) modRangesOf(env *specEnv, spec *FuncSpec) []modRange {
 		out = append(out, modRange{R: p.R, Lo: p.O, Hi: c.Add(p.O, c.Const(64, uint64(sizeof(t)))), Text: m.Text})
 	}
 	return out
+}
+
+// restoreKept re-establishes, after a havoc of the whole heap, the contents of the regions the root
+// contract assumes calls through function-typed parameters to preserve.
+func (e *Engine) restoreKept(st *State, old Heap) {
+	c := e.C
+	if e.cur == nil {
+		return
+	}
+	for _, r := range e.cur.keepRegions {
+		for kd := 0; kd < NKinds; kd++ {
+			st.heap.K[kd] = c.Store(st.heap.K[kd], r, c.Select(old.K[kd], r))
+		}
+	}
+	for _, sl := range e.cur.keepTargets {
+		k := c.FreshVar("q_t", BV(64))
+		// region of the k-th element (read in the entry heap: the array itself is a kept region)
+		rk := c.Select(c.Select(e.cur.entry.heap.K[KPR], sl.P.R), c.Add(sl.P.O, c.Mul(k, c.Const(64, 8))))
+		var eqs []*Term
+		for kd := 0; kd < NKinds; kd++ {
+			eqs = append(eqs, c.Eq(c.Select(st.heap.K[kd], rk), c.Select(old.K[kd], rk)))
+		}
+		guard := c.And(c.Sle(c.Const(64, 0), k), c.Slt(k, sl.Len))
+		st.facts = append(st.facts, e.mkFact(k, c.Implies(guard, c.And(eqs...))))
+	}
 }
 
 // isPureLeaf: the function body contains only loads, arithmetic, control flow and calls to other
